@@ -180,13 +180,11 @@ def AbsSt.declIdx (s : AbsSt) (n : Name) : Nat := (s.decls.findIdx? (· == n)).g
 def AbsSt.emit (s : AbsSt) (d : DStmt) : AbsSt := { s with out := s.out ++ [d] }
 def AbsSt.bind (s : AbsSt) (r : Nat) (t : DTree) : AbsSt := { s with env := (r, t) :: s.env }
 
-/-- is the call that wrote `r` a statement?  (its result and its alias are never read, or the
-alias register is written by a later instruction) -/
-def callIsStmt (rest : List Instr) (r : Nat) : Bool :=
-  !(rest.any fun i => i.reads.contains r) &&
-  ((rest.any fun i => i.writes == some (r + 1)) || !(rest.any fun i => i.reads.contains (r + 1)))
-
-def abstractStep (s : AbsSt) (i : Instr) (rest : List Instr) : AbsSt :=
+/-- one instruction.  A call binds its result register and the alias register after it (the F7
+reading) and is an event of the statement list: every call — operand or statement — appears in
+evaluation order.  The step looks at nothing but the state, so the denotation of a stack is a fold
+and the denotation of `stack ++ [i]` extends that of `stack`. -/
+def abstractStep (s : AbsSt) (i : Instr) : AbsSt :=
   match i with
   | .fnArg v _ =>
     let s := { s with decls := s.decls ++ [v.innerName] }
@@ -199,8 +197,7 @@ def abstractStep (s : AbsSt) (i : Instr) (rest : List Instr) : AbsSt :=
   | .exprOp o l r reg => s.bind reg (.op o (s.res l) (s.res r))
   | .call f ps r =>
     let t := DTree.call f.name (ps.map s.res)
-    if callIsStmt rest r then (s.bind r t).emit (.callS t)
-    else (s.bind r t).bind (r + 1) t
+    ((s.bind r t).bind (r + 1) t).emit (.callS t)
   | .ext tag r => s.bind r (.ext tag)
   | .letBinding v x =>
     let t := s.res x
@@ -215,12 +212,11 @@ def abstractStep (s : AbsSt) (i : Instr) (rest : List Instr) : AbsSt :=
   | .jumpFnReturn x => s.emit (.jret (s.res x))
   | _ => s
 
-def abstractGo : List Instr → AbsSt → AbsSt
-  | [], s => s
-  | i :: rest, s => abstractGo rest (abstractStep s i rest)
+def AbsSt.init : AbsSt := { env := [], decls := [], out := [] }
 
-def abstractStack (stack : List Instr) : List DStmt :=
-  (abstractGo stack { env := [], decls := [], out := [] }).out
+def abstractFold (stack : List Instr) : AbsSt := stack.foldl abstractStep AbsSt.init
+
+def abstractStack (stack : List Instr) : List DStmt := (abstractFold stack).out
 
 /-! ### The denotation of the source -/
 
@@ -239,6 +235,7 @@ def dlookup (n : Name) : List (List (Name × Nat)) → Option Nat
     | none => dlookup n outer
 
 def SpecSt.emit (s : SpecSt) (d : DStmt) : SpecSt := { s with out := s.out ++ [d] }
+def SpecSt.emits (s : SpecSt) (ds : List DStmt) : SpecSt := { s with out := s.out ++ ds }
 def SpecSt.push (s : SpecSt) : SpecSt := { s with tscope := [] :: s.tscope, dscope := [] :: s.dscope }
 def SpecSt.pop (s : SpecSt) : SpecSt := { s with tscope := s.tscope.tail, dscope := s.dscope.tail }
 
@@ -250,117 +247,141 @@ def SpecSt.declare (s : SpecSt) (n : Name) (t : Ty) (m : Bool) : SpecSt × Nat :
               | fr :: outer => ((n, d) :: fr) :: outer),
             next := d + 1 }, d)
 
-def treeOfW : W DTree → DTree
-  | .atom t => t
-  | .pair l o r => .op o (treeOfW l) (treeOfW r)
+/-- call events of an expression in evaluation order, and its value -/
+abbrev Den := List DStmt × DTree
+
+def denTree : W Den → Den
+  | .atom d => d
+  | .pair l o r => ((denTree l).1 ++ (denTree r).1, .op o (denTree l).2 (denTree r).2)
+
+/-- the bracketing of an operator chain: the independent reference (`specTree`: rightmost operator
+of minimal priority) or the operator-stack fold (`precTree`) the theorems speak about; the two are
+compared on every generated chain, and `C07_fold_correct` / `C07_fold_unique` show that the fold
+yields the unique priority-correct tree -/
+def buildTree (ref : Bool) {α : Type} (a : α) (rest : List (Op × α)) : W α :=
+  if ref then specTree Generated.prio a rest else precTree Generated.prio a rest
+
+def fieldIdx (s : SpecSt) (x a : Name) : Nat :=
+  match s.tscope.lookup x with
+  | some (.struct _ attrs, _) => ((attrs.lookup a).map (·.1)).getD 999999
+  | _ => 999999
 
 mutual
-def specExpr (g : RGlobals) (s : SpecSt) : Expr → DTree
-  | .mk v rest => treeOfW (specTree Generated.prio (specVal g s v) (specRest g s rest))
-def specRest (g : RGlobals) (s : SpecSt) : Option (Op × Expr) → List (Op × DTree)
+def specExpr (ref : Bool) (s : SpecSt) : Expr → Den
+  | .mk v rest => denTree (buildTree ref (specVal ref s v) (specRest ref s rest))
+def specRest (ref : Bool) (s : SpecSt) : Option (Op × Expr) → List (Op × Den)
   | none => []
-  | some (o, .mk v rest) => (o, specVal g s v) :: specRest g s rest
-def specVal (g : RGlobals) (s : SpecSt) : ExprValue → DTree
+  | some (o, .mk v rest) => (o, specVal ref s v) :: specRest ref s rest
+def specVal (ref : Bool) (s : SpecSt) : ExprValue → Den
   | .var x =>
-    match dlookup x s.dscope with
-    | some d => .read d
-    | none => .const x
-  | .lit v => .lit v
-  | .call f args => .call f (specArgs g s args)
-  | .field x a =>
-    let d := (dlookup x s.dscope).getD 999999
-    let idx := match s.tscope.lookup x with
-      | some (.struct _ attrs, _) => ((attrs.lookup a).map (·.1)).getD 999999
-      | _ => 999999
-    .field d idx
-  | .sub e => specExpr g s e
-  | .ext tag _ => .ext tag
-def specArgs (g : RGlobals) (s : SpecSt) : List Expr → List DTree
-  | [] => []
-  | e :: es => specExpr g s e :: specArgs g s es
+    ([], match dlookup x s.dscope with
+      | some d => .read d
+      | none => .const x)
+  | .lit v => ([], .lit v)
+  | .call f args =>
+    let a := specArgs ref s args
+    (a.1 ++ [.callS (.call f a.2)], .call f a.2)
+  | .field x a => ([], .field ((dlookup x s.dscope).getD 999999) (fieldIdx s x a))
+  | .sub e => specExpr ref s e
+  | .ext tag _ => ([], .ext tag)
+def specArgs (ref : Bool) (s : SpecSt) : List Expr → List DStmt × List DTree
+  | [] => ([], [])
+  | e :: es => ((specExpr ref s e).1 ++ (specArgs ref s es).1, (specExpr ref s e).2 :: (specArgs ref s es).2)
 end
 
-def specLet (g : RGlobals) (b : LetB) (s : SpecSt) : SpecSt :=
-  let t := specExpr g s b.value
+def specLet (ref : Bool) (g : RGlobals) (b : LetB) (s : SpecSt) : SpecSt :=
+  let d := specExpr ref s b.value
   let ty := ((checkExpr g s.tscope b.value).2).getD (.prim .none)
-  let (s, d) := s.declare b.name ty b.mutable
-  s.emit (.letD d b.mutable t)
+  let q := (s.emits d.1).declare b.name ty b.mutable
+  q.1.emit (.letD q.2 b.mutable d.2)
 
-def specBind (g : RGlobals) (b : Bind) (s : SpecSt) : SpecSt :=
-  s.emit (.assign ((dlookup b.name s.dscope).getD 999999) (specExpr g s b.value))
+def specBind (ref : Bool) (b : Bind) (s : SpecSt) : SpecSt :=
+  let d := specExpr ref s b.value
+  (s.emits d.1).emit (.assign ((dlookup b.name s.dscope).getD 999999) d.2)
 
-def specCallS (g : RGlobals) (c : CallS) (s : SpecSt) : SpecSt :=
-  s.emit (.callS (.call c.name (specArgs g s c.args)))
+def specCallS (ref : Bool) (c : CallS) (s : SpecSt) : SpecSt :=
+  s.emits (specVal ref s (.call c.name c.args)).1
 
-def specLogic (g : RGlobals) (s : SpecSt) : LogicCond → DTree
-  | .mk c none => .cmp c.cond (specExpr g s c.left) (specExpr g s c.right)
-  | .mk c (some (lg, rc)) => .logic lg (.cmp c.cond (specExpr g s c.left) (specExpr g s c.right)) (specLogic g s rc)
+def specLogic (ref : Bool) (s : SpecSt) : LogicCond → Den
+  | .mk c none =>
+    ((specExpr ref s c.left).1 ++ (specExpr ref s c.right).1, .cmp c.cond (specExpr ref s c.left).2 (specExpr ref s c.right).2)
+  | .mk c (some (lg, rc)) =>
+    ((specExpr ref s c.left).1 ++ (specExpr ref s c.right).1 ++ (specLogic ref s rc).1,
+     .logic lg (.cmp c.cond (specExpr ref s c.left).2 (specExpr ref s c.right).2) (specLogic ref s rc).2)
 
-def specIfCond (g : RGlobals) (c : IfCond) (s : SpecSt) : SpecSt :=
+def specIfCond (ref : Bool) (c : IfCond) (s : SpecSt) : SpecSt :=
   match c with
-  | .single e => s.emit (.branch (specExpr g s e))
-  | .logic lc => s.emit (.branch (specLogic g s lc))
+  | .single e => (s.emits (specExpr ref s e).1).emit (.branch (specExpr ref s e).2)
+  | .logic lc => (s.emits (specLogic ref s lc).1).emit (.branch (specLogic ref s lc).2)
+
+def specJret (ref : Bool) (e : Expr) (s : SpecSt) : SpecSt :=
+  (s.emits (specExpr ref s e).1).emit (.jret (specExpr ref s e).2)
+
+def specRet (ref : Bool) (e : Expr) (s : SpecSt) : SpecSt :=
+  (s.emits (specExpr ref s e).1).emit (.ret (specExpr ref s e).2)
 
 mutual
-def specIf (g : RGlobals) : IfStmt → SpecSt → SpecSt
+def specIf (ref : Bool) (g : RGlobals) : IfStmt → SpecSt → SpecSt
   | .mk cond body els elif, s =>
-    let s := specIfCond g cond s
-    let s := (specBodies g body s.push).pop
+    let s := specIfCond ref cond s.push
+    let s := (specBodies ref g body s).pop
     match els, elif with
-    | some eb, _ => (specBodies g eb s.push).pop
-    | none, some ei => specIf g ei s
+    | some eb, _ => (specBodies ref g eb s.push).pop
+    | none, some ei => specIf ref g ei s
     | none, none => s
-def specBodies (g : RGlobals) : IfBodies → SpecSt → SpecSt
-  | .ifb l, s => specIfBody g l s
-  | .loopb l, s => specIfLoopBody g l s
-def specIfBody (g : RGlobals) : List IfBodyStmt → SpecSt → SpecSt
+def specBodies (ref : Bool) (g : RGlobals) : IfBodies → SpecSt → SpecSt
+  | .ifb l, s => specIfBody ref g l s
+  | .loopb l, s => specIfLoopBody ref g l s
+def specIfBody (ref : Bool) (g : RGlobals) : List IfBodyStmt → SpecSt → SpecSt
   | [], s => s
-  | .letB b :: tl, s => specIfBody g tl (specLet g b s)
-  | .bind b :: tl, s => specIfBody g tl (specBind g b s)
-  | .call c :: tl, s => specIfBody g tl (specCallS g c s)
-  | .ifS i :: tl, s => specIfBody g tl (specIf g i s)
-  | .loop b :: tl, s => specIfBody g tl (specLoopBody g b s.push).pop
-  | .ret e :: tl, s => specIfBody g tl (s.emit (.jret (specExpr g s e)))
-def specIfLoopBody (g : RGlobals) : List IfLoopStmt → SpecSt → SpecSt
+  | .letB b :: tl, s => specIfBody ref g tl (specLet ref g b s)
+  | .bind b :: tl, s => specIfBody ref g tl (specBind ref b s)
+  | .call c :: tl, s => specIfBody ref g tl (specCallS ref c s)
+  | .ifS i :: tl, s => specIfBody ref g tl (specIf ref g i s)
+  | .loop b :: tl, s => specIfBody ref g tl (specLoopBody ref g b s.push).pop
+  | .ret e :: tl, s => specIfBody ref g tl (specJret ref e s)
+def specIfLoopBody (ref : Bool) (g : RGlobals) : List IfLoopStmt → SpecSt → SpecSt
   | [], s => s
-  | .letB b :: tl, s => specIfLoopBody g tl (specLet g b s)
-  | .bind b :: tl, s => specIfLoopBody g tl (specBind g b s)
-  | .call c :: tl, s => specIfLoopBody g tl (specCallS g c s)
-  | .ifS i :: tl, s => specIfLoopBody g tl (specIf g i s)
-  | .loop b :: tl, s => specIfLoopBody g tl (specLoopBody g b s.push).pop
-  | .ret e :: tl, s => specIfLoopBody g tl (s.emit (.jret (specExpr g s e)))
-  | .brk :: tl, s => specIfLoopBody g tl s
-  | .cont :: tl, s => specIfLoopBody g tl s
-def specLoopBody (g : RGlobals) : List LoopStmt → SpecSt → SpecSt
+  | .letB b :: tl, s => specIfLoopBody ref g tl (specLet ref g b s)
+  | .bind b :: tl, s => specIfLoopBody ref g tl (specBind ref b s)
+  | .call c :: tl, s => specIfLoopBody ref g tl (specCallS ref c s)
+  | .ifS i :: tl, s => specIfLoopBody ref g tl (specIf ref g i s)
+  | .loop b :: tl, s => specIfLoopBody ref g tl (specLoopBody ref g b s.push).pop
+  | .ret e :: tl, s => specIfLoopBody ref g tl (specJret ref e s)
+  | .brk :: tl, s => specIfLoopBody ref g tl s
+  | .cont :: tl, s => specIfLoopBody ref g tl s
+def specLoopBody (ref : Bool) (g : RGlobals) : List LoopStmt → SpecSt → SpecSt
   | [], s => s
-  | .letB b :: tl, s => specLoopBody g tl (specLet g b s)
-  | .bind b :: tl, s => specLoopBody g tl (specBind g b s)
-  | .call c :: tl, s => specLoopBody g tl (specCallS g c s)
-  | .ifS i :: tl, s => specLoopBody g tl (specIf g i s)
-  | .loop b :: tl, s => specLoopBody g tl (specLoopBody g b s.push).pop
-  | .ret e :: tl, s => specLoopBody g tl (s.emit (.jret (specExpr g s e)))
-  | .brk :: tl, s => specLoopBody g tl s
-  | .cont :: tl, s => specLoopBody g tl s
+  | .letB b :: tl, s => specLoopBody ref g tl (specLet ref g b s)
+  | .bind b :: tl, s => specLoopBody ref g tl (specBind ref b s)
+  | .call c :: tl, s => specLoopBody ref g tl (specCallS ref c s)
+  | .ifS i :: tl, s => specLoopBody ref g tl (specIf ref g i s)
+  | .loop b :: tl, s => specLoopBody ref g tl (specLoopBody ref g b s.push).pop
+  | .ret e :: tl, s => specLoopBody ref g tl (specJret ref e s)
+  | .brk :: tl, s => specLoopBody ref g tl s
+  | .cont :: tl, s => specLoopBody ref g tl s
 end
 
-def specBody (g : RGlobals) : List BodyStmt → SpecSt → SpecSt
+def specBody (ref : Bool) (g : RGlobals) : List BodyStmt → SpecSt → SpecSt
   | [], s => s
-  | .letB b :: tl, s => specBody g tl (specLet g b s)
-  | .bind b :: tl, s => specBody g tl (specBind g b s)
-  | .call c :: tl, s => specBody g tl (specCallS g c s)
-  | .ifS i :: tl, s => specBody g tl (specIf g i s)
-  | .loop b :: tl, s => specBody g tl (specLoopBody g b s.push).pop
-  | .expr e :: tl, s | .ret e :: tl, s => specBody g tl (s.emit (.ret (specExpr g s e)))
+  | .letB b :: tl, s => specBody ref g tl (specLet ref g b s)
+  | .bind b :: tl, s => specBody ref g tl (specBind ref b s)
+  | .call c :: tl, s => specBody ref g tl (specCallS ref c s)
+  | .ifS i :: tl, s => specBody ref g tl (specIf ref g i s)
+  | .loop b :: tl, s => specBody ref g tl (specLoopBody ref g b s.push).pop
+  | .expr e :: tl, s | .ret e :: tl, s => specBody ref g tl (specRet ref e s)
 
 def specParams : List (Name × ATy) → SpecSt → SpecSt
   | [], s => s
   | (n, t) :: rest, s =>
-    let (s, d) := s.declare n t.toTy false
-    specParams rest (s.emit (.param d))
+    let q := s.declare n t.toTy false
+    specParams rest (q.1.emit (.param q.2))
+
+def SpecSt.init : SpecSt := { tscope := [[]], dscope := [[]], next := 0, out := [] }
 
 /-- what the source function computes, in evaluation order -/
-def specStmts (g : RGlobals) (f : FnDecl) : List DStmt :=
-  (specBody g f.body (specParams f.params { tscope := [[]], dscope := [[]], next := 0, out := [] })).out
+def specStmts (ref : Bool) (g : RGlobals) (f : FnDecl) : List DStmt :=
+  (specBody ref g f.body (specParams f.params SpecSt.init)).out
 
 /-- the registered declarations of a program as the rule checker computes them -/
 def Program.rglobals (p : Program) : RGlobals := (declPhase p).g
